@@ -484,4 +484,49 @@ theorem emitted_block_in_loop (d : Data) (c : Config) (mv : Bool) (code : List C
               exact block_in_context _ (post ++ (tailCmds ++ [ .add a.L a.L (.imm 1), .jmp p3.1, .label p4.1 ]))
                 hpre hd hl idv resv hmi hmr i id bv k hid hk hbv regs tr hL
 
+/-! ## (g) the creator emits no correction -/
+
+theorem retarget_noRot (args : Int) (code : List Cmd) (h : code.all (fun cmd => !Cmd.isRot cmd) = true) :
+    (retarget args code).all (fun cmd => !Cmd.isRot cmd) = true := by
+  cases code with
+  | nil => simpa [retarget] using h
+  | cons c cs =>
+    cases c <;> simp only [retarget] <;> exact h
+
+/-- **The correction is applied to pair i's qubit "and to no other" — in particular not to the
+partner half.** With the creator data read off the real builder (`Gen.creatorData`: no corrections on
+any of the three paths), the model of `create_keep` (plain, post routine, sequential, on generic and
+single-communication-qubit hardware), `create_rsp` and `create_measure` emits no rotation, for EVERY
+configuration. -/
+theorem creator_emits_no_correction (d : Data) (c : Config) (args : Int) (code : List Cmd)
+    (h : emitCreate d Gen.creatorData c args = some code) : code.all (fun cmd => !Cmd.isRot cmd) = true := by
+  unfold emitCreate at h
+  split at h
+  · have hflag : (if c.post = true then Gen.creatorData.cPost else if c.nv = true then Gen.creatorData.cMove
+        else Gen.creatorData.cWaitAll) = false := by
+      have : Gen.creatorData = ⟨false, false, false⟩ := by decide
+      rw [this]; split <;> (try split) <;> rfl
+    simp only [hflag, Bool.and_false, Option.map_eq_some_iff] at h
+    obtain ⟨code0, h0, rfl⟩ := h
+    exact retarget_noRot _ _ (expect_off d _ code0 rfl h0)
+  · split at h
+    · simp only [emitMeasure, Option.map_some, Option.some.injEq] at h
+      subst h
+      simp [retarget, Cmd.isRot]
+    · simp at h
+
+/-- the generated creator data itself -/
+theorem creator_data : Gen.creatorData = ⟨false, false, false⟩ := by decide
+
+/-- non-vacuity: creator configurations with an emission (wait-all, post routine, move, rsp) -/
+example : (emitCreate Gen.data Gen.creatorData ⟨"keep", false, false, 2, true, [], [], 0, 1, 1, 0⟩ 2).isSome = true
+    ∧ (emitCreate Gen.data Gen.creatorData ⟨"keep", false, true, 2, true, [], [], 0, 1, 1, 0⟩ 2).isSome = true
+    ∧ (emitCreate Gen.data Gen.creatorData ⟨"keep", true, false, 2, true, [], [], 0, 1, 1, 0⟩ 2).isSome = true
+    ∧ (emitCreate Gen.data Gen.creatorData ⟨"rsp", false, false, 2, true, [], [], 0, 1, 1, 0⟩ 1).isSome = true := by
+  decide
+
+/-- sharpness: were the creator flag of the move path set, rotations would be emitted -/
+example : ((emitCreate Gen.data ⟨false, false, true⟩ ⟨"keep", true, false, 2, true, [], [], 0, 1, 1, 0⟩ 2).getD []).any
+    Cmd.isRot = true := by decide
+
 end NQ.C10
